@@ -960,6 +960,16 @@ class CxxPath:
     def knows_equal(self, marker, upto=None):
         return any(op == "==" and (marker in a or marker in b) for a, op, b in self.facts(upto))
 
+    def knows_equal_whole(self, marker, upto=None):
+        """equality known with `marker` itself (not an element, slice or member of it) as one operand"""
+        def norm(t):
+            t = t.replace(" ", "")
+            while t.startswith("(") and t.endswith(")") and _balanced(t[1:-1]):
+                t = t[1:-1]
+            return t
+        want = norm(marker)
+        return any(op == "==" and (norm(a) == want or norm(b) == want) for a, op, b in self.facts(upto))
+
     def knows_positive(self, markers, upto=None):
         """some quantity named by one of the markers is known to be > 0"""
         zero, one = ("0", "0U", "0u"), ("1", "1U", "1u")
@@ -1196,8 +1206,8 @@ def rule_cxx_header(out, tier):
                 if upto is None:
                     order_ok = False
                     continue
-                if not p.knows_equal(marker, upto):
-                    if p.knows_equal(marker):
+                if not p.knows_equal_whole(marker, upto):
+                    if p.knows_equal_whole(marker):
                         order_ok = False
                     else:
                         good = False
